@@ -20,7 +20,7 @@ R03.5  locals: parameters are l0..l(p-1), declared locals follow and are initial
 import re
 
 from .. import astdb, pe, emit, oracle, templates, ctyperules as ct
-from ..astdb import AnalysisBroken
+from ..astdb import AnalysisBroken, walk
 from ..pe import Ptr, unk, is_sym
 from . import c01
 
@@ -563,7 +563,39 @@ def check_function_body(chk, tus, tabs, rule='R03.5'):
     chk.sample(dict(rule='R03.5', function_body=text))
 
 
-def check_function_sequence(chk):
+def check_unreachable_traps(chk, it):
+    """R03.6: `unreachable` is an instruction with an effect - it traps.  Its template, parsed against the runtime header in the build
+    configurations of generated code (default, -DNDEBUG, -O2-style __OPTIMIZE__ defined, both), must expand to a call of the embedder's
+    trap handler with the unreachable enumerator; a compiler hint (`__builtin_unreachable()`) is not a trap: the C compiler may delete
+    the guarding branch and execution continues"""
+    row = oracle.BY_NAME['unreachable']
+    n = 0
+    for pretty in (0, 1):
+        tp = [t for t in templates.extract(it, row, ['i64'], pretty, 0) if t.ok and t.parts]
+        chk.require(len(tp) == 1, 'unreachable has %d templates' % len(tp))
+        text = tp[0].text()
+        for cfg, flags in (('default', []), ('ndebug', ['-DNDEBUG']), ('optimize', ['-D__OPTIMIZE__=1']), ('ndebug+optimize', ['-DNDEBUG', '-D__OPTIMIZE__=1'])):
+            h = templates.Harness(base_flags=['-DWASM_THREADS_PTHREADS'] + flags)
+            h.add('T_unreachable', text)
+            tu = h.parse('c03-unreachable-' + cfg)
+            body = astdb.fn_body(tu.fn('T_unreachable'))
+            calls = [c for c in walk(body) if c.get('kind') == 'CallExpr']
+            names = [astdb.callee_name(c) for c in calls]
+            ok = False
+            for c in calls:
+                if astdb.callee_name(c) == 'trap':
+                    a = astdb.call_args(c)
+                    refs = [x.get('referencedDecl', {}).get('name') for x in walk(a[0]) if x.get('kind') == 'DeclRefExpr'] if a else []
+                    ok = ok or any(r and 'nreachable' in r for r in refs)
+            n += 1
+            chk.expect(ok, 'R03.6', 'unreachable-traps[p%d,%s]' % (pretty, cfg),
+                       'in the %s configuration of the generated code the `unreachable` template %r expands to calls of %r: it must call the trap '
+                       'handler with the unreachable trap - a compiler hint is not a trap, the C compiler may then delete the branch that guards '
+                       'it and execution continues past it' % (cfg, text.strip(), names), 'template/unreachable:' + cfg)
+    return n
+
+
+def check_function_sequence(chk, rule='R03.2'):
     """R03.2: every function starts with an empty operand stack, whatever the previous function in the same file left behind:
     the text of each function in a multi-function file equals its text when it is written to a file of its own"""
     from .. import render as R
@@ -587,7 +619,7 @@ def check_function_sequence(chk):
     for order in ([6, 0, 1, 2, 3, 4, 5], [0, 6, 1, 6 - 4, 3, 4, 5], [5, 4, 3, 2, 1, 0, 6], [2, 6, 0, 1, 3, 6 - 1, 4]):
         together = defs(R.render(it, mk, K, order, []))
         for fn_, text in sorted(alone.items()):
-            chk.expect(together.get(fn_) == text, 'R03.2', 'fresh-stack[%s,order=%r]' % (fn_, order),
+            chk.expect(together.get(fn_) == text, rule, 'fresh-stack[%s,order=%r]' % (fn_, order),
                        'function %s is emitted differently when it follows other functions in the same file (order %r): %r vs alone %r - the operand '
                        'stack / declarations of the previous function leak into it' % (fn_, order, together.get(fn_), text),
                        'wasmCWriteFunctionImplementations:per-function-reset')
@@ -615,6 +647,8 @@ def run(chk):
     check_locals(chk, it, tabs)
     check_function_body(chk, tus, tabs)
     check_function_sequence(chk)
+    check_unreachable_traps(chk, it)
+    chk.floor('R03.6', 8)
     check_branch_family(chk, emit.make_interp(tus), tabs, chk.tier)
     chk.require(DECL_COUNT[0] >= 100, 'declared-slot rule evaluated on %d scripts only' % DECL_COUNT[0])
     chk.ok('R03.5', 'slots-declared', '%d control-flow scripts: every operand-stack variable in the emitted text is recorded in stackDeclarations, '
